@@ -787,6 +787,11 @@ def run(ctx):
             parts = parts + PARTIAL
             if thorough:
                 parts = parts + [(b, a) for (a, b) in bipartitions(n)]
+        # node lists in another order than ascending (descending first list,
+        # rotated second list): the invariants do not depend on list order
+        parts = parts + [(a[::-1], b[1:] + b[:1]) for (a, b) in parts
+                         if len(a) > 1 or len(b) > 1][::(1 if thorough
+                                                         else 2)]
         for (L1, L2) in parts:
             for it in (its if n == 5 else (1, 2)):
                 cases.append(mk("xrewire", g, {"L1": L1, "L2": L2,
@@ -797,7 +802,8 @@ def run(ctx):
     # 4. setting cross links
     cases = []
     parts5 = [([0], [1, 2, 3, 4]), ([0, 1], [2, 3, 4]), ([0, 2, 4], [1, 3]),
-              ([1, 2, 3, 4], [0]), ([0, 1], [2, 3])]
+              ([1, 2, 3, 4], [0]), ([0, 1], [2, 3]),
+              ([4, 0, 2], [3, 1]), ([3, 1], [2, 4, 0])]
     for g in (g5 if thorough else g5[::3]):
         for (L1, L2) in parts5:
             nn = len(L1) * len(L2)
